@@ -289,6 +289,22 @@ def run_sharded(binary, cases, tag, per_case_s=None, supervised=True, shards=Non
         threads.append(t)
     for t in threads:
         t.join()
+    if supervised:
+        # a HANG verdict may be an artefact of a loaded machine: every such case is re-run alone with a deadline six
+        # times as long (at most 48 of them, six at a time) and keeps the verdict only if it still does not answer
+        hung = [c for c in cases if results.get(c[1]) == 'HANG'][:48]
+        if hung:
+            def again(c, k):
+                path = os.path.join(WORK, f'{tag}.retry{k}.cases')
+                write_cases(path, [c])
+                r = {}
+                _supervise(binary, path, [c[1]], 6.0 * (per_case_s or 5.0), r, extra_env)
+                if r.get(c[1]) is not None:
+                    results[c[1]] = r[c[1]]
+            for base in range(0, len(hung), 6):
+                ts = [threading.Thread(target=again, args=(c, base + j)) for j, c in enumerate(hung[base:base + 6])]
+                for t in ts: t.start()
+                for t in ts: t.join()
     return results
 
 
